@@ -1023,6 +1023,13 @@ func (w *verifWorldA) observe() {
 			c.Count("undo-started")
 			for _, h := range vt.halts {
 				ht := w.st.Task(h)
+				if ht != nil && ht.Status() == state.UndoStatus && !w.tasks[h].undoable {
+					// flagged for undo by an abort but it has no undo handler: nothing
+					// of it is pending or will run, the next ensure pass turns the
+					// mark back into Done
+					c.Count("probe:dependent-without-undo-handler-merely-flagged")
+					continue
+				}
 				if ht != nil && !ht.Status().Ready() {
 					if c.Active("C01") {
 						c.Violate("C01/undo-before-dependents", "undo of %s started while %s, which waits on it, is %v", vt.label, w.tasks[h].label, ht.Status())
